@@ -374,18 +374,10 @@ fn main() {
                 state.current_stack()
             ));
 
-            res.push_str(&*format!(
-                "
-    last = Option::{};",
-                match state.get_latest_loc() {
-                    Some(v) => format!("Some({})", v),
-                    None => String::from("None"),
-                }
-            ));
-
             let mut point = state.get_all_point();
             point.sort_by(|a, b| a.1.partial_cmp(&b.1).unwrap());
             let mut idx = 0;
+            let mut latest = None;
 
             for (i, c) in state.get_all_code().iter().enumerate() {
                 match c.get_area() {
@@ -403,6 +395,9 @@ fn main() {
                             point[idx].1 = codes.len() - 1;
                             idx += 1;
                         }
+                        if state.get_latest_loc() == Some(i) {
+                            latest = Some(codes.len() - 1);
+                        }
                         codes.push(Vec::new());
                     }
                     Area::Nil => {
@@ -410,6 +405,15 @@ fn main() {
                     }
                 }
             }
+
+            res.push_str(&*format!(
+                "
+    last = Option::{};",
+                match latest {
+                    Some(v) => format!("Some({})", v),
+                    None => String::from("None"),
+                }
+            ));
 
             if opt {
                 for (a, b) in point {
